@@ -89,6 +89,7 @@ namespace pm
       int action = NO_ACTION;
       int action1 = NO_ACTION;  // action attached in the second action family (selected by action< act1, ... >)
       std::string tname;  // PEGTL's demangle<>() text when the node is a user-visible type ("" for synthetic nodes)
+      std::string cname;   // compiler-independent token form of the type as written in the source ("" = not predictable), see gen.canonical_name
       std::string errmsg;  // custom error_message of this type ("" = default)
       std::string mi_msg;  // must_if< Errors >: Errors::message< Rule > ("" = nullptr)
       bool mi_rof = false; // must_if< Errors >: raise_on_failure< Errors, Rule >
